@@ -737,6 +737,11 @@ O(id='uper_open_type.frag-grid', props=['C01', 'C02', 'C04', 'C18'], kind='nativ
   bound='native grid under ASan/UBSan: open types of 1..300 octets and m*16384-2..m*16384+2 (m = 1..5) at bit offsets 0 and 3 (octets vs the X.691 10.9 fragments, read back), plus 5 hand-made valid fragment orders the encoder never produces (16K then 64K ...)',
   timeout=900)
 
+O(id='SEQUENCE_decode_oer.ext-grid', props=['C03', 'C04', 'C05', 'C14'], kind='native', harness='harness/grid_seq_oer.c', entry='main',
+  functions=['SEQUENCE_decode_oer', 'SEQUENCE_free', 'oer_open_type_get', 'oer_open_type_skip', 'asn_get_few_bits', 'asn_get_undo', 'asn_bit_data_new_contiguous'], no_canary=True,
+  defines=['VF_BM_STEP=17'], bound='native grid under ASan/UBSan/LSan with the assertions of h_seq_oer.c: SEQUENCE { a, b OPTIONAL, c, ..., d } of stub members; 4 preambles x extension bitmap fields (length 1..3, unused bits 0..7, first bitmap octet every 17th value) x sequences of at most two of 5 open-type templates x every truncation x every two-chunk split, + 20000 VERIF_SEED random tails',
+  timeout=1500)
+
 for _o in OBLIGATIONS:
     if _o.get('enforce') and _o.get('kind') in ('enforce', 'width') and _o.get('tier') == 'quick' and 'C19' not in _o['props']:
         _o['props'] = _o['props'] + ['C19']
